@@ -22,6 +22,9 @@ class Message:
             raise Error('Space can only appear in the very last arg')
         if any(type(arg)(c) in arg for arg in self.args if isinstance(arg, str) for c in '\r\n'):
             raise Error('No newline allowed')
+        for value in (self.prefix, self.command):
+            if value is not None and any(c in str(value) for c in '\r\n'):
+                raise Error('No newline allowed')
 
     @staticmethod
     def from_string(s):
